@@ -357,7 +357,8 @@ pub fn run(tier: Tier) -> i32 {
             ("yaml-ish", b"k: v\nother: [1, 2]\n".to_vec()),
             ("binary", (0u8..=255).collect()),
         ];
-        for (name, bytes) in &files {
+        let more: Vec<(&str, Vec<u8>)> = whole_files().into_iter().map(|(n, t)| (n, t.into_bytes())).collect();
+        for (name, bytes) in files.iter().chain(more.iter()) {
             let dir = scratch.worker(0);
             let p = Project::new(Config::simple("en", &["en"]));
             let _ = p.materialise(&dir, default_opts());
